@@ -16,6 +16,9 @@ def show_factor(ty, expr):
 
 
 def conv_slot(q, u, bs, ty, rounding=False):
+    if u.get("added"):
+        from . import added as AD
+        return AD.repath(conv_slot(q, dict(u, added=False), bs, ty, rounding), q, u)
     rt = STYPES[ty]["rust"]
     qm, alias, un = q["module"], q["alias"], u["name"]
     rnd = ""
